@@ -304,7 +304,7 @@ class TypedNode(Node):
                 kind,
                 source_node.data,
                 parent=self,
-                data_id=data_id,
+                data_id=source_node._data_id,
                 node_id=node_id,
             )
         else:
